@@ -27,6 +27,19 @@
 
 #include "vrun.h"
 
+// The bucket arrays are allocated with the over-aligned operator new (an existing seam): inside the measured phase the
+// allocation is a schedule point, so a thread can be preempted between "decided to allocate" and "array installed".
+bool g_alloc_point = false;
+void* operator new(std::size_t n, std::align_val_t al) {
+  if (g_alloc_point) vsched::event("\"k\":\"alloc\"", true);
+  std::size_t a = static_cast<std::size_t>(al);
+  void* p = ::aligned_alloc(a, (n + a - 1) / a * a);
+  if (p == nullptr) abort();
+  return p;
+}
+void operator delete(void* p, std::align_val_t) noexcept { ::free(p); }
+void operator delete(void* p, std::size_t, std::align_val_t) noexcept { ::free(p); }
+
 namespace {
 
 constexpr uint32_t MAGIC = 0x5eed1234u;
@@ -129,7 +142,8 @@ void name_table(Table& t, int ord, const void* next) {
   ti.ctrl = t._controls;
   ti.values = (char*)t._values;
   ti.stride = sizeof(*t._values);
-  g_tabs.push_back(ti);
+  if ((size_t)ord < g_tabs.size()) g_tabs[(size_t)ord] = ti; // the table's arrays were replaced (never on the unchanged code)
+  else g_tabs.push_back(ti);
   snprintf(nm, sizeof nm, "ctrl%d", ord);
   vsched::name_array(t._controls, 1, ti.buckets + 16, nm);
   if (next) {
@@ -147,7 +161,8 @@ void refresh_chain(S* s) {
   auto* node = &s->_head;
   size_t ord = 0;
   while (node != nullptr) {
-    if (ord >= g_tabs.size()) name_table(node->table, (int)ord, &node->next);
+    if (ord >= g_tabs.size() || g_tabs[ord].ctrl != (const void*)node->table._controls || g_tabs[ord].values != (char*)node->table._values)
+      name_table(node->table, (int)ord, &node->next);
     // raw read: the driver must not add interposed operations of its own
     node = *reinterpret_cast<decltype(node) const*>(reinterpret_cast<const void*>(&node->next));
     ord++;
@@ -385,6 +400,17 @@ void final_finds(C& c, int nkeys) {
   }
 }
 
+// quiescent re-insertion of every key: a key that is stored must be reported as already present, at its slot
+template <typename C>
+void final_emplaces(C& c, int nkeys) {
+  for (int k = 1; k <= nkeys; k++) {
+    OpSpec o {'e', k};
+    Elem arg = make_key(k);
+    Res r = do_op(c, o, arg);
+    vsched::eventf(false, "\"k\":\"femp\",\"key\":%d,\"ord\":%d,\"idx\":%d,\"ins\":%s", k, r.ord, r.idx, r.ins ? "true" : "false");
+  }
+}
+
 template <typename C>
 void prefill(C& c, const std::vector<std::vector<int>>& pre) {
   for (size_t o = 0; o < pre.size(); o++) {
@@ -411,6 +437,7 @@ void run_all(C& c, const vrun::Params& p) {
   refresh_all();
   vrun::begin();
   g_log = true;
+  g_alloc_point = true;
   {
     std::vector<std::thread> ths;
     for (size_t t = 0; t < prog.size(); t++) {
@@ -421,9 +448,11 @@ void run_all(C& c, const vrun::Params& p) {
     for (auto& th : ths) th.join();
   }
   g_log = false;
+  g_alloc_point = false;
   refresh_all();
   dump_final();
   final_finds(c, (int)g_keys.size());
+  final_emplaces(c, (int)g_keys.size());
   vsched::finish();
   g_refresh = nullptr;
 }
